@@ -3,6 +3,16 @@ families = correspondence families (harness `gen <fam>`) with quick-tier op coun
 monitor = number of monitor cases in the quick tier (harness `monitor <id>`)."""
 
 PROPS = {
+    "C19": {
+        "families": {"fees": 2400, "wrapper": 12000},
+        "monitor": 150,
+        "assumptions": [
+            "the three transfers of collect_bank_fees and the emission payouts are SPL / Token-2022 CPIs executed by the real token programs in the harness; the Lean model carries their amounts, the monitor checks vault and destination deltas (destination + withheld transfer fee = amount sent)",
+            "who signs and which accounts are bound (has_one / seeds / Signer) is decided over the tables the translator regenerates from the #[derive(Accounts)] structs and handler bodies; that the seeds and the ATA derivation name the right keys is checked dynamically by substituting accounts through real dispatch",
+            "the emissions history theorem models position changes as arbitrary non-negative share updates; closing a position abandons its sub-token outstanding rewards (the pool equation then holds with <=), which the history model does not include",
+            "setup_emissions / update_emissions_parameters (funding) are modelled as `fund`; their role binding is C08/C12",
+        ],
+    },
     "C16": {
         "families": {"account": 12000, "wrapper": 12000},
         "ix_monitor": 8000,
@@ -115,6 +125,12 @@ _NOTE = ("Trusted: Lean kernel; axioms propext/Classical.choice/Quot.sound only 
          "and by diffing model vs real code on generated operations. ")
 
 MANIFEST_TEXT = {
+    "C19": {
+        "text": "Machine-checked Lean 4 theorems: collect_exact (each of the three transfers is the whole-token part of min(bucket, liquidity still available), buckets fall by exactly what moved, total <= vault; with enough liquidity each bucket keeps exactly its fractional part); calc_emissions closed form R*floor(T*floor48(amount/10^d)/YEAR) hence zero at zero time/size/rate, monotone in each, never above the exact proportional amount; a claim moves a non-negative credit <= emissions_remaining from the pool to the position and nothing else; settle pays exactly the whole-token part; over EVERY history of claims, withdrawals, re-funding, user activity and new positions on any number of positions: remaining >= 0 and remaining + sum(outstanding) + paid = funded, so payouts never exceed funding (induction); by decide over tables regenerated from the source: only handle_bankruptcy/withdraw_insurance sign as the insurance-vault authority and only the two fee withdrawals as the fee-vault authority (scan of every function under instructions/), collect signs as the liquidity authority only and checks the fee ATA first, draw-downs need the group admin's signature, the permissionless sweep is bound to bank.fees_destination_account which only the admin sets, emission payouts need an authorised signer or pass the destination check first. `fees` family: the REAL collect instruction through real dispatch (SPL/Token-2022/transfer-fee mints) vs the model on generated buckets/liquidity; `wrapper` family: real claim/settle vs model; the C19 monitor substitutes every destination/vault/signer through real dispatch (all must be refused, store unchanged) and checks the pool equation and vault balance after every emissions step.",
+        "design_ref": "DESIGN.md §4 C19",
+        "note": _NOTE,
+        "technique": "Lean 4 proof: arithmetic spec theorems + invariant induction over emission histories + decide over source-generated signer/constraint tables; correspondence check incl. real-dispatch fee collection; real-dispatch substitution monitor",
+    },
     "C16": {
         "text": "Machine-checked Lean 4 theorems on the position-array model: find_or_create returns the bank's existing slot or opens exactly one fresh empty slot with the bank's tag and preserves 'distinct active slots have distinct banks' (array length fixed at 16); a 9th integration position is refused; sort_balances yields keys non-increasing along the array, is a permutation and is idempotent; an accepted validate_asset_tags never lets staked and default-class positions mix; a successful balance increase never leaves >= 1 share on both sides (debt residue after a flip <= 2 ulps); can_be_closed characterisation; by decide over regenerated skeletons: the five user handlers test ACCOUNT_DISABLED before any share move and every position-changing handler sorts after its last wrapper operation. Model diffed against the real find_or_create / sort_balances / validate_asset_tags / can_be_closed (12k arrays/run incl. panics); the instruction-level monitor re-checks uniqueness, one-sidedness and ordering on the real account bytes after every real instruction.",
         "design_ref": "DESIGN.md §4 C16",
